@@ -1,15 +1,18 @@
 #!/bin/bash
-# usage: mutant.sh <patch.diff> <prop> [<prop>...]   -- applies the patch to /repo, runs quick checks, reverts
+# usage: mutant.sh <patch.diff> <prop> [<prop>...]   -- applies the patch to /repo, runs quick checks, reverts.
+# Evidence files and replays written while the patch is applied are discarded (evidence must come from the unchanged tree).
 patch=$1; shift
 cd /repo || exit 2
 if [ -n "$(git status --porcelain)" ]; then echo "repo dirty"; exit 2; fi
 if ! git apply "$patch" 2>/dev/null; then
-  if ! patch -p1 --no-backup-if-mismatch -s < "$patch"; then echo "PATCH DOES NOT APPLY"; git checkout -- .; exit 2; fi
+  if ! patch -p1 --no-backup-if-mismatch -s -r - < "$patch"; then echo "PATCH DOES NOT APPLY"; git checkout -- .; git clean -fdq; exit 2; fi
 fi
 git diff --stat | tail -2
 cd /verif
+sav=$(mktemp -d /tmp/verif-evsave.XXXX); cp -a evidence replays $sav/
 for p in "$@"; do
-  VERIF_RUNS=${VERIF_RUNS:-} python3 bin/check.py $p ${RUNS:+--runs $RUNS} 2>&1 | grep -v "^KNOWN-FINDING" | tail -${TAIL:-4}
+  python3 bin/check.py $p ${RUNS:+--runs $RUNS} ${TIER:+--tier $TIER} 2>&1 | grep -v "^KNOWN-FINDING" | cut -c1-${WIDTH:-500} | tail -${TAIL:-4}
   echo "  -> $p exit=${PIPESTATUS[0]}"
 done
+rm -rf evidence replays; mv $sav/evidence $sav/replays .; rmdir $sav
 cd /repo && git checkout -- . && git status --porcelain | head -3
